@@ -81,7 +81,7 @@ def _mk(spec, atoms, lam):
     return t, (s, (-1 if neg else 1), scale)
 
 
-def assembly(ctx, g, dims, listname, periodic=False):
+def assembly(ctx, g, dims, listname, periodic=False, edit_side=None):
     nd = len(dims)
     m, fs = scen.mesh(ctx, g, dims)
     BC = pf.BoundaryConditions(m)
@@ -95,6 +95,11 @@ def assembly(ctx, g, dims, listname, periodic=False):
             scen.set_robin(ctx, BC, scen.SIDES[2 * ax])
             scen.set_robin(ctx, BC, scen.SIDES[2 * ax + 1])
     phi = pf.CellVariable(m, ctx.arr('o', tuple(dims)), BC)
+    if edit_side is not None:
+        # the boundary data of one side are changed AFTER the variable (and its cached BC term) exist: the system solved
+        # must be the one of the variable's CURRENT boundary equations
+        phi.apply_BCs()          # settle: cached BC term fresh, all dirty bits cleared
+        scen.set_robin(ctx, phi.BCs, edit_side, prefix='ed' + edit_side)
     atoms, fields = _atoms(ctx, m, phi)
     lam = ctx.real('lam')
     spec = (LISTS_T if listname in LISTS_T else LISTS)[listname]
@@ -104,7 +109,7 @@ def assembly(ctx, g, dims, listname, periodic=False):
         t, d = _mk(sp, atoms, lam)
         terms.append(t)
         desc.append(d)
-    tag = 'C04/%s/%s/%s%s' % (g, 'x'.join(map(str, dims)), listname, '/periodic' if periodic else '')
+    tag = 'C04/%s/%s/%s%s%s' % (g, 'x'.join(map(str, dims)), listname, '/periodic' if periodic else '', ('/edit_' + edit_side) if edit_side else '')
     G = scen.cell_index(dims)
     n = int(np.prod(scen.full_shape(dims)))
     # ---- oracle system: Mbc + sum(+-lam M_k), RHSbc + sum(+-lam v_k), from freshly built terms
@@ -270,6 +275,9 @@ def scenarios(tier):
                 for ln in (('typical',) if tier == 'quick' else ('typical', 'all_kinds', 'scaled')):
                     T.append({'name': 'assembly/%s/%s/%s/periodic' % (g, 'x'.join(map(str, dims)), ln), 'fn': 'pv.props.c04:assembly',
                               'params': {'g': g, 'dims': dims, 'listname': ln, 'periodic': True}, 'timeout': 30, 'validate': 1})
+            for sd in scen.sides_of(g):
+                T.append({'name': 'assembly/%s/%s/typical/edit_%s' % (g, 'x'.join(map(str, dims)), sd), 'fn': 'pv.props.c04:assembly',
+                          'params': {'g': g, 'dims': dims, 'listname': 'typical', 'edit_side': sd}, 'timeout': 30, 'validate': 1})
             T.append({'name': 'linearity/%s/%s' % (g, 'x'.join(map(str, dims))), 'fn': 'pv.props.c04:linearity',
                       'params': {'g': g, 'dims': dims}, 'timeout': 30, 'validate': 1})
     T.sort(key=lambda t: -int(np.prod(t['params']['dims'])) - (100 if 'Spherical' in t['name'] else 0))
